@@ -39,7 +39,7 @@ ByteClasses == {"lbrace", "rbrace", "lbracket", "rbracket", "quote", "backslash"
 
 JunkKinds == {"nest_arrays", "nest_objects", "nest_deep", "digits_20", "digits_10000", "many_tag_members", "many_tags",
               "unterminated_string", "unterminated_escape", "unterminated_uescape", "lone_continuation",
-              "truncated_multibyte", "empty", "only_space", "big_string"}
+              "truncated_multibyte", "empty", "only_space", "big_string", "u16_boundary"}
 
 (* output buffer length classes; "needed" is what the valid base text requires *)
 BufClasses == {"zero", "tiny", "hdr31_32", "hdr143_144", "min151_168", "needed_minus", "needed", "needed_plus", "large"}
